@@ -103,7 +103,7 @@ def run(ctx):
     partial.bounded_section_read(ctx, fx, fx.files() if ctx.tier == 'thorough' else files)
     # constructors of file-backed writers start from an empty file
     order.create_truncates(ctx, fx, fx.files() if ctx.tier == 'thorough' else files + ['src/concurrency/async_blob_store.rs'])
-    ctx.floor('R-CREATE.truncate.sites', 3)
+    ctx.floor('R-CREATE.truncate.sites', 2)
     ctx.floor('R-VARINT.threshold.writers', 1)
     return dict(
         level_note="decides ordering/durability structure, the open-time size comparison and unchecked use of header "
